@@ -54,6 +54,8 @@ def run(prog, R):
             if c is None:
                 continue
             tp = c.target_path()
+            if prog.local_callee_body(c) is not None:
+                continue      # a crate function (e.g. an extension trait on BufReader): its own body is analysed
             if 'buffer_redux' in tp or 'buffer_redux' in c.path:
                 name = c.name
                 ok = name in ALLOWED_BUFREADER
@@ -81,8 +83,9 @@ def run(prog, R):
             key = lambda rs_: sorted((r[0], r[1] if r[0] == 'arg' else id(r[1]), tuple(x[1] for x in r[-1])) for r in rs_)
             ok = bool(recv) and key(recv) == key(rrecv) and all(r[0] == 'arg' for r in recv)
         ok_pol = True
+        cached = bool(a) and all(r[0] == 'arg' for r in a)      # a cached copy of the capacity (a field / parameter): not followed
         R.add('GROW-2', g, 'policy-sees-capacity', ok and ok_pol, site(g, gtt.line),
-              'self.buf_policy.grow_to(<- %s)' % [(r[0], r[1].callee.path if r[0] == 'call' else r[1]) for r in a])
+              'self.buf_policy.grow_to(<- %s)' % [(r[0], r[1].callee.path if r[0] == 'call' else r[1]) for r in a], undecided=(not ok) and cached)
         r = roots_of(g, rtt.args[1], du)
         ok2 = False
         detail = str([(x[0]) for x in r])
@@ -94,7 +97,7 @@ def run(prog, R):
             okr = len(rr) == 1 and rr[0][0] == 'call' and rr[0][1] is capcall
             ok2 = okl and okr
             detail = 'reserve(%s - %s)' % ('grow_to result' if okl else '?', 'capacity' if okr else '?')
-        R.add('GROW-2', g, 'reserve-difference', ok2 and g.cfg.dominates(gb, rb), site(g, rtt.line), detail)
+        R.add('GROW-2', g, 'reserve-difference', ok2 and g.cfg.dominates(gb, rb), site(g, rtt.line), detail, undecided=(not ok2) and cached and 'grow_to result' in detail)
     nlim = {}
     for b in prog.bodies.values():
         if is_derive(b) or 'fmt::Display' in b.path or 'fmt::Debug' in b.path or 'error::Error' in b.path:
@@ -197,7 +200,11 @@ def run(prog, R):
                     st.append(s_)
             comp = [x for x, tt in b.calls() if prog.local_callee_body(tt.callee) in C]
             ok = blk not in seen and kinds == {'flag', 'start==0'} and bool(comp) and any(c in seen for c in comp)
-            R.add('GROW-4', b, 'growth-guard', ok, site(b, t.line),
+            # the guard itself is right but the compaction on the other branch is made by a helper this rule does not know
+            # as a compaction function: not judged
+            helper_other = blk not in seen and kinds == {'flag', 'start==0'} and not (bool(comp) and any(c in seen for c in comp)) and any(
+                prog.local_callee_body(tt.callee) is not None and x in seen for x, tt in b.calls() if prog.local_callee_body(tt.callee) is not g)
+            R.add('GROW-4', b, 'growth-guard', ok, site(b, t.line), undecided=(not ok) and helper_other, detail=
                   'growth call reachable without (flag false | record start == 0): %s; guards found: %s; compaction on the other branch: %s'
                   % (blk in seen, sorted(kinds), bool(comp) and any(c in seen for c in comp)))
     R.floor('GROW-4', 2)
